@@ -90,6 +90,9 @@ def run(ctx):
     r = gen.Rng(ctx.seed * 1000003 + 8)
     for h in range(25 if ctx.quick else 400):
         run_history(ctx, r.fork(), 40, WEIGHTS, oracle)
+    # "ready at the instant the claim takes effect": the ready set shifts while a claimer is on its way to the lock (two-process schedules, every park point)
+    from . import c01
+    c01.ready_set_shifts(ctx, "C08")
     ctx.cov["rule"] = ("random event lists (incl. hand-merged shapes) → Go isReady/isBlocked/readyTasks vs model; seeded histories; oracle recomputes the manual's "
                        "definition from states/epics/edges and compares flags, list --ready, the claimed id and no_ready")
 
